@@ -43,6 +43,7 @@ def parseConn (s : String) : Conn :=
   match s.splitOn ":" with
   | ["ok"] => .ok | ["exp"] => .exp | ["nocred"] => .nocred | ["gen"] => .gen
   | ["expired"] => .expired | ["none"] => .none | ["nonenocred"] => .nonenocred
+  | ["subexp"] => .subexp
   | ["err", n] => .err (n.toNat?.getD 0)
   | ["disc", n] => .disc (n.toNat?.getD 0)
   | _ => .ok
